@@ -94,6 +94,7 @@ func contractTags(fc *FuncContract) map[string]bool {
 	for _, ca := range fc.CallAsserts {
 		add([]*Clause{ca.Clause})
 	}
+	add(fc.AtReturn)
 	if s := fc.Opts["serves"]; s != "" {
 		for _, t := range strings.FieldsFunc(s, func(r rune) bool { return r == ',' || r == ' ' }) {
 			m[t] = true
